@@ -52,7 +52,7 @@ def gen_history(rng, tier):
             if s["kind"] == base["kind"]:
                 break
         o = json.loads(json.dumps(base["options"]))
-        how = rng.choice(["same", "copy", "copy"]) if base["kind"] != "number" else "copy"     # number axes: a scale object is passed; a shared one would be the caller's sharing
+        how = rng.choice(["same", "copy", "copy", "mutate"]) if base["kind"] != "number" else "copy"     # number axes: a scale object is passed; a shared one would be the caller's sharing
         over = []
         if how == "copy":
             for key in rng.sample(["direction", "initialWidth", "initialHeight", "layerGap"], rng.randint(0, 2)):
@@ -62,6 +62,9 @@ def gen_history(rng, tier):
                 else:
                     o.pop(key, None)
         base["opt_mode"] = "given"
+        if how == "mutate":
+            # ONE dict object for both timelines, edited in place by the caller between the two constructor calls (to the second's own options)
+            o = json.loads(json.dumps(s["options"]))
         specs[b] = {"kind": base["kind"], "data": s["data"][:12], "options": o, "opt_mode": "given"}
         for i in (a, b):
             specs[i]["share"] = {"group": 0, "how": how, "over": over}
@@ -97,6 +100,12 @@ def construct_in_history(specs, bks, i, shared):
         return cls(data, options=own)
     first = shared[sh["group"]]
     if sh["how"] == "same":
+        return cls(data, options=first)
+    if sh["how"] == "mutate":
+        for key in list(first):
+            if key not in own:
+                del first[key]
+        first.update(own)
         return cls(data, options=first)
     o = dict(first)
     for key in sh["over"]:
